@@ -49,7 +49,7 @@ func checkC15(p *Prog, r *Report) {
 		}
 	}
 	r.Rule("R2", "no handler is invoked while the bus lock guarding the handler list is held (handlers may subscribe and unsubscribe)")
-	r.Rule("R3", "in Publish a handler of the core level is invoked by a call (finished before Publish returns), any other by a go statement; the level sequence iterated starts with the core level")
+	r.Rule("R3", "in Publish a handler of the core level is invoked by a call (finished before Publish returns), any other by a go statement; the level sequence iterated starts with the core level and the loop over the levels encloses the loop over the handlers (every core handler has run before the first application handler is started)")
 	r.Rule("R4", "Publish iterates a snapshot of the handler list copied under the bus lock")
 	guardLock := ""
 	for _, v := range guardTable(ls) {
@@ -237,7 +237,7 @@ func checkC15(p *Prog, r *Report) {
 	}
 	r.Floor("R5", "core-level subscriptions", nCoreSubs, 1)
 
-	r.Rule("R6", "unsubscribe keeps a handler ⇔ ¬(level ∧ handler equal); subscribe appends only after a miss of the same pair inside one critical section")
+	r.Rule("R6", "unsubscribe keeps a handler ⇔ ¬(level ∧ handler equal); subscribe appends only after a miss of the same pair inside one critical section; every read-modify-write of the handler list reads and stores inside one critical section")
 	rebuildAtomic(p, ls, r, "R6", F("events.handlers"), 2)
 	applyRetain(p, r, "R6", "spine", "events", "unsubscribe", retainSpec{Field: F("events.handlers"), Required: map[string]string{"level": "=Level", "handler": "=Handler"}})
 	absenceThenInsert(p, ls, r, "R6", F("events.handlers"), true, 1)
